@@ -210,7 +210,178 @@ def run_c18(tier, seed):
     return 1 if new else 0
 
 
+# ======================================================================================================
+# C15 / C16  build_dag
+# ======================================================================================================
+
+B_MC_CFG = '''SPECIFICATION BSpec
+INVARIANT Confluent
+INVARIANT ValidatedOnce
+CHECK_DEADLOCK FALSE
+'''
+
+
+def has_dup_binding(d):
+    for x in d['decls']:
+        srcs = [m['node'] for m in x['marks'] if m['kind'] in ('input', 'rec')]
+        if len(srcs) != len(set(srcs)):
+            return True
+    return False
+
+
+def builder_decl_sets(tier, seed):
+    """valid declaration sets: corpus shapes, random programs, permuted parameter order, unnamed switches,
+    build_node-derived nodes, duplicate bindings"""
+    from harness import corpus
+    from harness import decls
+    from harness import gen
+    quick = tier == 'quick'
+    rnd = random.Random('builder/%d' % seed)
+    out = []
+    seen = set()
+    progs = []
+    for p in corpus.all_programs():
+        shape = p['name'].split('#')[0]
+        if shape not in seen:
+            seen.add(shape)
+            progs.append(p)
+    for i in range(60 if quick else 600):
+        progs.append(gen.random_program(seed, i, modes=True))
+    for p in progs:
+        d = decls.from_program(p)
+        out.append(d)
+        r = rnd.random()
+        if r < 0.35:
+            # permuted parameter (declaration) order: the graph must not depend on it (head ids follow the order)
+            q = json.loads(json.dumps(p))
+            for n in q['nodes']:
+                rnd.shuffle(n['params'])
+            d2 = decls.from_program(q)
+            d2['name'] += '~perm'
+            out.append(d2)
+        if any(prm['kind'] == 'switch' for n in p['nodes'] for prm in n['params']) and rnd.random() < 0.5:
+            d3 = decls.from_program(p, unnamed_switch=True)
+            d3['name'] += '~unnamed'
+            out.append(d3)
+        cand = [n['id'] for n in p['nodes'] if n['params'] and n['id'] != p['input']
+                and all(prm['kind'] in ('input', 'switch', 'oneof', 'rec') for prm in n['params'])]
+        if cand and rnd.random() < 0.4:
+            pick = set(rnd.sample(cand, min(len(cand), 2)))
+            rec_nodes = {prm.get('dest') for n in p['nodes'] for prm in n['params'] if prm['kind'] == 'rec'} | \
+                        {prm.get('start') for n in p['nodes'] for prm in n['params'] if prm['kind'] == 'rec'}
+            pick -= rec_nodes
+            if pick:
+                d4 = decls.from_program(p, generic=pick)
+                d4['name'] += '~generic'
+                out.append(d4)
+    # duplicate binding: two parameters of one node bound to the same source (finding D10)
+    from harness.corpus import I, N, P
+    dup = P('dup_binding', [N('A'), N('B', I('p1', 'A')), N('O', I('p1', 'B'), I('p2', 'A'), I('p3', 'B'))], 'A', 'O')
+    out.append(decls.from_program(dup))
+    # declaration-only shapes that the run-time corpus avoids
+    from harness.corpus import RC, SW, OO
+    extra = [
+        # two recurrent sub-graphs restarting from the same start node
+        P('rec_shared_start', [N('A'), N('S', I('p1', 'A')), N('D1', I('p1', 'S')), N('D2', I('p1', 'S')),
+                               N('O', RC('p1', 'S', 'D1', 2), RC('p2', 'S', 'D2', 1))], 'A', 'O'),
+        # dependency parameters that carry the names the builder treats specially elsewhere
+        P('service_names', [N('A'), N('B', I('args', 'A')), N('C', I('kwargs', 'A'), I('p1', 'B')),
+                            N('O', I('args', 'B'), I('kwargs', 'C'), I('self_', 'A'))], 'A', 'O'),
+        # a node that is a candidate of one one-of and a case of a switch and a plain input
+        P('many_roles', [N('A'), N('S', I('p1', 'A')), N('X', I('p1', 'A')), N('Y', I('p1', 'A')),
+                         N('M', OO('p1', ['X', 'Y'])), N('W', SW('p1', 'S', [('l1', 'X'), ('l2', 'Y')], name='roles')),
+                         N('O', I('p1', 'M'), I('p2', 'W'), I('p3', 'X'))], 'A', 'O'),
+        # the output node is itself the input node's only consumer; single edge
+        P('two_nodes', [N('A'), N('O', I('p1', 'A'))], 'A', 'O'),
+        # nodes without marks hang off the input implicitly, at several depths
+        P('implicit_links', [N('A'), N('F1'), N('F2'), N('B', I('p1', 'F1')), N('O', I('p1', 'B'), I('p2', 'F2'))], 'A', 'O'),
+    ]
+    for p in extra:
+        out.append(decls.from_program(p))
+        d5 = decls.from_program(p, generic={n['id'] for n in p['nodes'] if n['params'] and n['id'] not in ('S', 'D1', 'D2')})
+        d5['name'] += '~generic'
+        out.append(d5)
+    return out
+
+
+def run_builder(pid, tier, seed):
+    from harness import decls
+    t0 = time.time()
+    quick = tier == 'quick'
+    dsets = builder_decl_sets(tier, seed)
+    tmp = tempfile.mkdtemp(prefix='verif_decl_')
+    cases = []
+    info = {}
+    try:
+        for d in dsets:
+            todo = [d]
+            if pid == 'C16':
+                muts = decls.mutations(d)
+                if quick and len(muts) > 14:
+                    rnd = random.Random('mut/%s/%d' % (d['name'], seed))
+                    muts = rnd.sample(muts, 14)
+                todo += muts
+            for q in todo:
+                res, _ = decls.build(q, tmp)
+                cid = '%s|%d' % (q['name'], len(cases))
+                cases.append({'id': cid, 'd': decls.to_tla(q), 'verdict': res['verdict'], 'graph': res['graph']})
+                info[cid] = q
+    finally:
+        shutil.rmtree(tmp, ignore_errors=True)
+        for m in [m for m in sys.modules if m.startswith('verif_decl_')]:
+            del sys.modules[m]
+    # (ii) every traversal order of the worklist machine, for the small declaration sets (valid and defective)
+    small = [c['d'] for c in cases if len(c['d']['decls']) <= (6 if quick else 8)]
+    small = small[: (120 if quick else 1500)]
+    dfile = tempfile.NamedTemporaryFile('w', suffix='.json', delete=False)
+    json.dump(small, dfile)
+    dfile.close()
+    try:
+        out, mc = tlc.run_tlc('BuilderMachine', B_MC_CFG, env={'DECL_FILE': dfile.name}, workers=8)
+    finally:
+        os.unlink(dfile.name)
+    if 'Model checking completed. No error has been found.' not in out:
+        raise tlc.TLCError('Builder.tla confluence check failed:\n' + out[-3000:])
+    # (i) the real build_dag against ExpectedGraph / ExpectedVerdict, in parallel batches
+    verdicts = {}
+    st_states = 0
+    st_gen = 0
+    import concurrent.futures
+    parts = [cases[i::8] for i in range(8)]
+    with concurrent.futures.ThreadPoolExecutor(8) as pool:
+        for v, st in pool.map(lambda part: tlc.run_batch('BuilderTrace', {'cases': part}, len(part)) if part else ({}, {}), parts):
+            verdicts.update(v)
+            st_states += st.get('distinct', 0)
+            st_gen += st.get('generated', 0)
+
+    def site(cid, clause, v):
+        d = info[cid]
+        if clause in ('C15.edges', 'C15.kw') and has_dup_binding(d):
+            return 'duplicate-binding'
+        if clause == 'C16.reject' and '!generic_partial' in d['name']:
+            return 'partial-rebinding'
+        return cid
+    new = report(pid, verdicts, lambda cid: {'decls': info[cid], 'source': decls.emit(info[cid])}, site, 'decls')
+    nvalid = sum(1 for c in cases if c['verdict'] == 'ok')
+    write_evidence(pid, tier, seed, 'translation_validation', {
+        'programs': len(cases), 'disagreements_checked': sum(1 for v in verdicts.values() if v),
+        'built_ok': nvalid, 'rejected': len(cases) - nvalid,
+        'worklist_model': {'declaration_sets': len(small), 'states': mc.get('distinct', 0), 'transitions': mc.get('generated', 0),
+                           'invariants': ['Confluent', 'ValidatedOnce']},
+        'states': mc.get('distinct', 0) + st_states, 'transitions': mc.get('generated', 0) + st_gen,
+        'samples': [{'id': cases[0]['id'], 'verdict': cases[0]['verdict'], 'edges': cases[0]['graph']['edges'][:6]},
+                    {'id': cases[-1]['id'], 'verdict': cases[-1]['verdict']}],
+    }, t0, new, ['declaration sets are generated source modules built with the real build_dag',
+                 'ExpectedGraph/ExpectedVerdict in spec/Builder.tla are the oracle; TLC evaluates them'])
+    print('%s %s: %d declaration sets through the real build_dag validated by TLC (%d built, %d rejected); worklist model: '
+          '%d sets, %d states, all traversal orders; %d new violation(s), %.1fs'
+          % (pid, tier, len(cases), nvalid, len(cases) - nvalid, len(small), mc.get('distinct', 0), new, time.time() - t0))
+    return 1 if new else 0
+
+
 def run(pid, tier, seed):
+    if pid in ('C15', 'C16'):
+        return run_builder(pid, tier, seed)
     fn = {'C18': run_c18}.get(pid)
     if fn is None:
         print('unknown property', pid)
